@@ -54,6 +54,7 @@ type Violation struct {
 	Nondets []string
 	PCSize  int
 	Trace   []int64
+	UsesUF  bool // the path applied uninterpreted functions (hashes, curve) to symbolic arguments
 }
 
 type frame struct {
@@ -107,6 +108,9 @@ type Machine struct {
 	concIdx     int
 	ufPoints    map[string][]ufPoint
 	inInit      int
+	pcSet       map[*smt.Term]bool
+	usedUF      bool
+	s256obj     *Object
 	decCache    map[*smt.Term][]*smt.Term
 	softLimit   int64
 	undo        []undoRec
@@ -180,6 +184,8 @@ func (m *Machine) RunPath(entry *ssa.Function, prefix []int64, pushAlt func([]in
 		m.initDone = map[*ssa.Package]bool{}
 	}
 	m.mapSaved = map[*MapObj]bool{}
+	m.pcSet = map[*smt.Term]bool{}
+	m.usedUF = false
 	m.decCache = nil
 	m.oncePath = map[*Object]bool{}
 	m.nondets = nil
@@ -296,9 +302,50 @@ func (m *Machine) assumeRaw(t *smt.Term) {
 		return
 	}
 	m.pc = append(m.pc, t)
+	m.notePC(t)
 	if m.Sol != nil {
 		m.Sol.Assert(t)
 	}
+}
+
+// notePC records a fact of the path condition (and its conjuncts) for syntactic look-ups.
+func (m *Machine) notePC(t *smt.Term) {
+	m.pcSet[t] = true
+	if t.Op == smt.OAnd {
+		for _, a := range t.Args {
+			m.notePC(a)
+		}
+	}
+	if t.Op == smt.ONot && t.Args[0].Op == smt.OOr {
+		for _, a := range t.Args[0].Args {
+			m.notePC(smt.Not(a))
+		}
+	}
+}
+
+// known: 1 if the path condition contains t, -1 if it contains its negation, 0 otherwise.
+func (m *Machine) known(t *smt.Term) int {
+	if m.pcSet[t] {
+		return 1
+	}
+	if m.pcSet[smt.Not(t)] {
+		return -1
+	}
+	if t.Op == smt.OAnd {
+		all := true
+		for _, a := range t.Args {
+			switch m.known(a) {
+			case -1:
+				return -1
+			case 0:
+				all = false
+			}
+		}
+		if all {
+			return 1
+		}
+	}
+	return 0
 }
 
 func (m *Machine) feasible(t *smt.Term) bool {
@@ -367,6 +414,9 @@ func (m *Machine) Branch(cond *smt.Term) bool {
 		d := m.prefix[m.cursor]
 		m.cursor++
 		m.trace = append(m.trace, d)
+		if k := m.known(cond); k != 0 {
+			return k == 1
+		}
 		if d == 1 {
 			m.assumeRaw(cond)
 		} else {
@@ -374,6 +424,10 @@ func (m *Machine) Branch(cond *smt.Term) bool {
 		}
 		m.unwindCountOnly()
 		return d == 1
+	}
+	if k := m.known(cond); k != 0 {
+		m.trace = append(m.trace, int64((k+1)/2))
+		return k == 1
 	}
 	m.unwindCheck()
 	ncond := smt.Not(cond)
@@ -485,6 +539,11 @@ func (m *Machine) Oblige(cond *smt.Term, label, kind string) {
 		}
 		m.end("unsupported", "symbolic obligation in concrete mode")
 	}
+	if m.known(cond) == 1 {
+		m.Discharged++
+		m.Trivial++
+		return
+	}
 	r := m.Sol.CheckWith(smt.Not(cond))
 	switch r {
 	case smt.Unsat:
@@ -497,7 +556,7 @@ func (m *Machine) Oblige(cond *smt.Term, label, kind string) {
 		m.Sol.Push()
 		m.Sol.Assert(smt.Not(cond))
 		m.defineNondets()
-		v := Violation{Label: label, Kind: kind, Pos: m.where(), PCSize: len(m.pc), Trace: append([]int64(nil), m.trace...)}
+		v := Violation{Label: label, Kind: kind, Pos: m.where(), PCSize: len(m.pc), Trace: append([]int64(nil), m.trace...), UsesUF: m.usedUF}
 		if m.Sol.Check() == smt.Sat {
 			v.Model, v.Nondets = m.modelStrings()
 		}
@@ -767,7 +826,8 @@ func (m *Machine) allocGlobal(g *ssa.Global) *Object {
 var skipInitPkgs = map[string]bool{
 	"runtime": true, "os": true, "syscall": true, "reflect": true, "internal/reflectlite": true,
 	"fmt": true, "log": true, "time": true, "sync": true, "unicode": true, "net": true, "io": true,
-	"github.com/massnetorg/mass-core/logging": true,
+	"github.com/massnetorg/mass-core/logging": true, "math/big": true, "math": true, "strconv": true, "crypto/elliptic": true,
+	"crypto/internal/nistec": true, "encoding/base64": true, "errors": true,
 }
 
 var skipInitPrefixes = []string{
